@@ -8,7 +8,7 @@ from multiprocessing import Pool
 
 from . import core
 
-UNIVERSE = {"Foo", "Bar", "Baz", "Qux", "Zed", "EEMSRead", "EEMSWrite", "Alias"}
+UNIVERSE = {"Foo", "Bar", "Baz", "Qux", "Zed", "EEMSRead", "EEMSWrite", "Alias", "Variant"}
 
 
 def histories(maxhist, simulate=None, workers=8, pairs=True):
